@@ -1175,7 +1175,9 @@ class Step(Function):
         self.timestep = UnaryOperator(timestep)
 
     def term(self, time="t"):
-        return "({} if {}>{} else 0.0)".format(self.height.term(time), time, self.timestep.term(time))
+        # tolerant comparison: inside a stock equation the time is t-dt, which for decimal dt can lie a rounding error
+        # above the grid point (0.4-0.1 = 0.30000000000000004 must not count as later than 0.3)
+        return "({} if ({})-({})>1e-9 else 0.0)".format(self.height.term(time), time, self.timestep.term(time))
 
 
 class Pulse(Function):
@@ -1191,7 +1193,7 @@ class Pulse(Function):
 
     def term(self, time="t"):
         if self.interval.element == 0.0:
-            return "(({}/{}) if {}=={} else 0.0)".format(self.volume.term(time), "model.dt", time, self.first_pulse)
+            return "(({}/{}) if abs(({})-({}))<1e-9 else 0.0)".format(self.volume.term(time), "model.dt", time, self.first_pulse)
         else:
             return "(({volume}/{dt}) if (({time}-{first_pulse}) >= -1e-9 and abs((({time}-{first_pulse})/({interval}))-round(({time}-{first_pulse})/({interval})))<1e-9) else 0.0)".format(volume=self.volume.term(time), dt="model.dt", time=time, first_pulse=self.first_pulse, interval=self.interval)
 
@@ -1254,7 +1256,9 @@ class Delay(Function):
     def term(self, time="t"):
         delayed_time = "{} - {}".format(str(time),
                                         self.delay_duration.term("model.starttime"))
-        return "({} if {}>={} else {})".format(
+        # the delayed time is compared with a tolerance: inside a stock equation the time is t-dt, which for decimal dt
+        # can lie a rounding error below the grid point (1.45-0.1-0.1 = 1.2499999999999998 for a start time of 1.25)
+        return "({} if {}>={}-1e-9 else {})".format(
             self.input_function.term(delayed_time),
             delayed_time,
             "model.starttime",
